@@ -324,7 +324,7 @@ class MacIPAdvertisment(EVPN):
         # ip address
         if ip_addr_len != 0:
             route['ip'] = str(netaddr.IPAddress(
-                int(binascii.b2a_hex(value[offset: offset + int(ip_addr_len / 8)]), 16)))
+                int(binascii.b2a_hex(value[offset: offset + int(ip_addr_len / 8)]), 16), 6 if ip_addr_len == 128 else 4))
             offset += int(ip_addr_len / 8)
         # label
         route['label'] = cls.parse_mpls_label_stack(value[offset:])
@@ -379,7 +379,8 @@ class InclusiveMulticastEthernetTag(EVPN):
         # ip address
         if ip_addr_len != 0:
             route['ip'] = str(
-                netaddr.IPAddress(int(binascii.b2a_hex(value[offset: int(offset + ip_addr_len / 8)]), 16)))
+                netaddr.IPAddress(int(binascii.b2a_hex(value[offset: int(offset + ip_addr_len / 8)]), 16),
+                                  6 if ip_addr_len == 128 else 4))
         return route
 
     @classmethod
@@ -423,7 +424,8 @@ class EthernetSegment(EVPN):
         offset += 1
         # ip address
         if ip_addr_len != 0:
-            route['ip'] = str(netaddr.IPAddress(int(binascii.b2a_hex(value[offset: offset + ip_addr_len // 8]), 16)))
+            route['ip'] = str(netaddr.IPAddress(int(binascii.b2a_hex(value[offset: offset + ip_addr_len // 8]), 16),
+                                                6 if ip_addr_len == 128 else 4))
         return route
 
     @classmethod
